@@ -602,3 +602,45 @@ def ppat(p):
     if k == "Slice":
         return "[..]"
     return "<" + str(k) + ">"
+
+
+def with_roles(fn, roles):
+    """deep copy of a function (params + body) in which the locals identified by `roles` ({canonical name: hid}) carry the
+    canonical name - rules can then talk about roles (`visited`, `to_visit`, `line` ..) whatever the source calls them"""
+    import copy
+    f2 = copy.deepcopy({k: v for k, v in fn.items()})
+    by_hid = {h: r for r, h in roles.items() if h is not None}
+
+    def fix(n):
+        if isinstance(n, dict):
+            if n.get("hid") in by_hid and ("name" in n):
+                n["name"] = by_hid[n["hid"]]
+            for v in n.values():
+                fix(v)
+        elif isinstance(n, list):
+            for v in n:
+                fix(v)
+    fix(f2.get("body"))
+    fix(f2.get("params"))
+    return f2
+
+
+def local_bindings(fn):
+    """every local binding of a function: {hid: binding node}"""
+    out = {}
+    for prm in fn.get("params", []):
+        for b in pat_bindings(prm["pat"]):
+            out[b["hid"]] = b
+    for n in nodes(fn_body(fn)):
+        k = n.get("k")
+        pats = []
+        if k in ("Let", "LetCond", "ForLoop"):
+            pats.append(n["pat"])
+        elif k == "Match":
+            pats += [a["pat"] for a in n["arms"]]
+        elif k == "Closure":
+            pats += [p["pat"] for p in n.get("params", []) if isinstance(p, dict) and "pat" in p]
+        for p in pats:
+            for b in pat_bindings(p):
+                out[b["hid"]] = b
+    return out
